@@ -776,8 +776,44 @@ def check_options(ctx):
                 bad = 'with annotate off the attribute is %s' % canon(v_)[:60]
         else:
             bad = 'a path does not consult annotate'
+    use_time = None
+    if bad == 'a path does not consult annotate' and not seen_on and not seen_off:
+        # the decision taken where the comments are written: the option and the map are both kept
+        # unchanged, and every generator path fills the comments hole from the map under
+        # ``self.annotate`` and with nothing under ``not self.annotate``
+        kept = {canon(n_.targets[0]): canon(n_.value) for n_ in ginit.node.body if isinstance(n_, ast.Assign) and len(n_.targets) == 1}
+        if kept.get('self.annotate') == 'annotate' and kept.get('self.sourcecode_by_field_name') == 'sourcecode_by_field_name':
+            from ..expr import subst
+            use_time, n_holes = True, 0
+            for t in repo.templates():
+                v = t.values.get('comments') if 'comments' in t.holes else None
+                if v is None:
+                    continue
+                n_holes += 1
+                try:
+                    ps = [p_ for p_ in repo.walker(max_paths=ctx.max_paths).paths(t.func.node, cls=t.func.cls) if not p_.raises()]
+                except Undecided:
+                    use_time = None
+                    break
+                for p_ in ps:
+                    g_ = set(p_.guard_texts())
+                    x = canon(subst(v, {k: e for k, e in p_.env.items() if isinstance(k, str)}))
+                    if 'self.annotate' in g_ and 'self.sourcecode_by_field_name.get(' in x:
+                        continue
+                    if 'not self.annotate' in g_ and x in ("''", '""'):
+                        continue
+                    use_time = False if ('self.annotate' in g_ or 'not self.annotate' in g_ or 'self.sourcecode_by_field_name.get(' in x) else None
+                    break
+                if use_time is not True:
+                    break
+            if use_time and not n_holes:
+                use_time = None
     if seen_on and seen_off and not bad:
         ctx.holds(rule, ginit, 'if annotate: keep the source map else {}', 'annotation only adds comments when switched on', ginit.node.lineno, clause='e')
+    elif use_time is True:
+        ctx.holds(rule, ginit, 'self.annotate = annotate; comments written only under self.annotate', 'annotation only adds comments when switched on (decided where the comments are written)', ginit.node.lineno, clause='e')
+    elif use_time is None and bad == 'a path does not consult annotate' and not seen_on and not seen_off and any(canon(n_.targets[0]) == 'self.annotate' for n_ in ginit.node.body if isinstance(n_, ast.Assign)):
+        ctx.undecided(rule, ginit, 'annotate', 'the option is kept for later: cannot follow where it is consulted', ginit.node.lineno, clause='e')
     else:
         ctx.violation(rule, ginit, 'annotate', 'the annotate option does not select between the source map and {} (%s)' % (bad or 'no such paths'), ginit.node.lineno, clause='e')
     # generate_code: produced and installed only under own flag
@@ -864,8 +900,9 @@ def check_comments(ctx):
                 from ..expr import subst
                 srcs = {canon(subst(v, {k: e for k, e in p_.env.items() if isinstance(k, str)})) for p_ in ps}
                 if srcs:
-                    from_map = all('self.sourcecode_by_field_name.get(' in x for x in srcs)
-                    src = sorted(srcs)[0]
+                    # a path that writes no comment at all ('' in the hole) is a path without annotation
+                    from_map = any('self.sourcecode_by_field_name.get(' in x for x in srcs) and all('self.sourcecode_by_field_name.get(' in x or x in ("''", '""') for x in srcs)
+                    src = sorted(srcs)[-1]
                     unresolved = not from_map and any(x == canon(v) or '@phi' in x for x in srcs)
             except Undecided:
                 unresolved = True
